@@ -112,6 +112,19 @@ class Lang:
             out.append((t.type, t.text))
         return out
 
+    def real_tokens_pos(self, text):
+        """[(TOKENNAME, text, line, column)] from the real lexer"""
+        import antlr4
+        lx = self.L.blackbirdLexer(antlr4.InputStream(text))
+        lx.removeErrorListeners()
+        out = []
+        while True:
+            t = lx.nextToken()
+            if t.type == antlr4.Token.EOF:
+                break
+            out.append((self.tok_names.get(t.type, "?"), t.text, t.line, t.column))
+        return out
+
     def real_parse_tokens(self, types):
         """accept/reject verdict of the real parser on a token-type sequence (no EOF in types)"""
         import antlr4
